@@ -17,12 +17,14 @@ SDLS = [
     """
     directive @tweak(by: String = "d") on FIELD_DEFINITION
     directive @same on FIELD_DEFINITION | FIELD
+    directive @stamp on INPUT_FIELD_DEFINITION
+    input Box { label: String @stamp n: Int = 5 }
     scalar Tag
     type Cat { name: String meow: Int }
     type Dog { name: String bark: Int }
     union Pet = Cat | Dog
     interface Named { name: String }
-    type Query { pet: Pet pets: [Pet] tag: Tag @tweak hello(n: Int = 1): String @same named: Named }
+    type Query { pet: Pet pets: [Pet] tag: Tag @tweak hello(n: Int = 1): String @same named: Named echo(t: Tag): String open(box: Box): String }
     type Subscription { tick: Int }
     type Robot implements Named { name: String }
     """,
@@ -30,38 +32,44 @@ SDLS = [
     """
     directive @tweak(by: String = "e") on FIELD_DEFINITION
     directive @same on FIELD_DEFINITION | FIELD
+    directive @stamp on INPUT_FIELD_DEFINITION
+    input Box { label: String @stamp n: Int = 5 }
     scalar Tag
     type Cat implements Named { name: String meow: Int }
     type Dog implements Named { name: String bark: Int }
     union Pet = Cat | Dog
     interface Named { name: String }
-    type Query { pet: Pet pets: [Pet] tag: Tag @tweak(by: "x") hello(n: Int = 2): String @same named: Named }
+    type Query { pet: Pet pets: [Pet] tag: Tag @tweak(by: "x") hello(n: Int = 2): String @same named: Named echo(t: Tag): String open(box: Box): String }
     type Subscription { tick: Int }
     """,
     # bundle 2: default type resolution (_typename), no directive implementation needed on tag
     """
     directive @tweak(by: String = "f") on FIELD_DEFINITION
     directive @same on FIELD_DEFINITION | FIELD
+    directive @stamp on INPUT_FIELD_DEFINITION
+    input Box { label: String @stamp n: Int = 5 }
     scalar Tag
     type Cat { name: String meow: Int }
     type Dog { name: String bark: Int }
     union Pet = Dog | Cat
     interface Named { name: String }
     type Rock implements Named { name: String }
-    type Query { pet: Pet pets: [Pet] tag: Tag hello(n: Int = 3): String @same named: Named }
+    type Query { pet: Pet pets: [Pet] tag: Tag hello(n: Int = 3): String @same named: Named echo(t: Tag): String open(box: Box): String }
     type Subscription { tick: Int }
     """,
     # bundle 3: Pet is an interface here
     """
     directive @tweak(by: String = "g") on FIELD_DEFINITION
     directive @same on FIELD_DEFINITION | FIELD
+    directive @stamp on INPUT_FIELD_DEFINITION
+    input Box { label: String @stamp n: Int = 5 }
     scalar Tag
     interface Pet { name: String }
     type Cat implements Pet { name: String meow: Int }
     type Dog implements Pet { name: String bark: Int }
     interface Named { name: String }
     type Rock implements Named { name: String }
-    type Query { pet: Pet pets: [Pet] tag: Tag @tweak hello(n: Int = 4): String @same named: Named }
+    type Query { pet: Pet pets: [Pet] tag: Tag @tweak hello(n: Int = 4): String @same named: Named echo(t: Tag): String open(box: Box): String }
     type Subscription { tick: Int }
     """,
 ]
@@ -74,6 +82,12 @@ REQUESTS = [
     "{ named { __typename name } }",
     "{ __type(name: \"Pet\") { kind possibleTypes { name } } }",
     "{ __schema { directives { name args { name defaultValue } } } }",
+    # byte-identical operations with variables of a custom scalar / an input object carrying a directive: the
+    # coercers (Scalar.coerce_input / parse_literal, on_post_input_coercion) are each bundle's own
+    ("query V($t: Tag) { echo(t: $t) }", {"t": "x"}),
+    ("query W($t: Tag = \"dflt\") { echo(t: $t) lit: echo(t: \"l\") }", {}),
+    ("query I($b: Box) { open(box: $b) }", {"b": {"label": "y"}}),
+    ("query J($b: Box = {label: \"z\"}) { open(box: $b) o2: open(box: {label: \"w\", n: 1}) }", {}),
 ]
 
 
@@ -120,10 +134,24 @@ def register(i):
             return "tag%d<%s>" % (i, v)
 
         def coerce_input(self, v):
-            return v
+            return "in%d<%s>" % (i, v)
 
         def parse_literal(self, ast):
-            return ast.value
+            return "lit%d<%s>" % (i, ast.value)
+
+    @Resolver("Query.echo", schema_name=sn)
+    async def echo(p, a, c, info):
+        return "b%d:%r" % (i, a.get("t"))
+
+    @Resolver("Query.open", schema_name=sn)
+    async def open_(p, a, c, info):
+        return "b%d:%s" % (i, json.dumps(a.get("box"), sort_keys=True))
+
+    @Directive("stamp", schema_name=sn)
+    class Stamp:
+        async def on_post_input_coercion(self, directive_args, next_directive, parent_node, value, ctx):
+            r = await next_directive(parent_node, value, ctx)
+            return "stamp%d<%s>" % (i, r)
 
     @Directive("tweak", schema_name=sn)
     class Tweak:
@@ -160,7 +188,10 @@ async def main():
         for i, e in engines.items():
             rs = []
             for q in REQUESTS:
-                rs.append(await e.execute(q))
+                if isinstance(q, tuple):
+                    rs.append(await e.execute(q[0], variables=q[1]))
+                else:
+                    rs.append(await e.execute(q))
             sub = []
             async for r in e.subscribe("subscription { tick }"):
                 sub.append(r)
